@@ -23,9 +23,32 @@ def c02_inv_k2(E):
     history(E, 2, SUB + ["remove_genes", "rule", "remove_metabolites"], _inv, contexts=True, sym_coef=False)
 
 
+def _ref(E, m, S, tag):
+    from vlib.refmodel import compare
+    invariants(E, m, S, "cross-references" + tag)
+    from vlib.ops import S_detail
+    compare(E, S.ref, m, "documented-effect" + tag, **S_detail(S))
+
+
+def c02_ref_k1(E):
+    history(E, 1, list(OPS), _ref, contexts=False, with_ref=True)
+
+
+def c02_ref_k2(E):
+    history(E, 2, SUB + ["remove_genes", "rule", "remove_metabolites", "isub", "add_model_metabolites", "rename_metabolite"], _ref,
+            contexts=True, sym_coef=False, with_ref=True)
+
+
 HARNESSES = [
-    H("c02_inv_k1", c02_inv_k1, quick=dict(max_paths=30000, time_budget=60), thorough=dict(max_paths=200000, time_budget=200),
+    H("c02_inv_k1", c02_inv_k1, tiers=("thorough",), thorough=dict(max_paths=200000, time_budget=200),
       witness_every=20, bounds="every operation x all argument shapes once; invariants after the step"),
-    H("c02_inv_k2", c02_inv_k2, quick=dict(max_paths=80000, time_budget=90), thorough=dict(max_paths=2000000, time_budget=600),
+    H("c02_ref_k1", c02_ref_k1, quick=dict(max_paths=30000, time_budget=60), thorough=dict(max_paths=200000, time_budget=200),
+      witness_every=20, bounds="every operation once; state compared with the executable reference of the documented semantics "
+                               "(vlib/refmodel.py) where one exists (bounds, stoichiometry edits, *=, +=, -=, rules, add/remove "
+                               "reactions and metabolites, remove/rename genes, renames); R1 with symbolic coefficients and bounds"),
+    H("c02_ref_k2", c02_ref_k2, quick=dict(max_paths=120000, time_budget=100), thorough=dict(max_paths=2000000, time_budget=700),
+      witness_every=150, bounds="all pairs from the sub-alphabet + remove_genes, rule, remove_metabolites, -=, add_metabolites(model), "
+                                "metabolite rename + enter/exit (the reference is restored at exit as C03 demands)"),
+    H("c02_inv_k2", c02_inv_k2, tiers=("thorough",), thorough=dict(max_paths=2000000, time_budget=600),
       witness_every=100, bounds="all pairs from the sub-alphabet + remove_genes, rule, remove_metabolites + enter/exit"),
 ]
